@@ -135,12 +135,21 @@ func TestWorker(t *testing.T) {
 	}
 	defer bw.Flush()
 	hb := os.Getenv("VERIF_HEARTBEAT")
+	// one fixed-width record rewritten in place: a single small pwrite per case
+	// (no truncate, no rename), so the driver never sees an empty heartbeat
+	var hbFile *os.File
+	if hb != "" {
+		hbFile, _ = os.OpenFile(hb, os.O_CREATE|os.O_WRONLY, 0o644)
+	}
 	beat := func(s string) {
-		if hb != "" {
-			// atomic replace: the driver must never read a half-written heartbeat
-			if os.WriteFile(hb+".tmp", []byte(s), 0o644) == nil {
-				os.Rename(hb+".tmp", hb)
+		if hbFile != nil {
+			var rec [160]byte
+			for i := range rec {
+				rec[i] = ' '
 			}
+			copy(rec[:159], s)
+			rec[159] = '\n'
+			hbFile.WriteAt(rec[:], 0)
 		}
 	}
 	curBeat := ""
